@@ -51,6 +51,7 @@ class EqClient:
     def __init__(self, fn, selfn, othern):
         self.fn, self.selfn, self.othern = fn, selfn, othern
         self.loops = {}
+        self.isclose = []
 
     def vec_side(self, node):
         p = access_path(node)
@@ -72,6 +73,24 @@ class EqClient:
         return None
 
     def call(self, node, env, ev):
+        """math.isclose / np.isclose / np.allclose on the two coordinates (or vectors)"""
+        nm = access_path(node.func) or ""
+        short = nm.split(".")[-1]
+        if short in ("isclose", "allclose") and len(node.args) >= 2:
+            kw = {k.arg: k.value for k in node.keywords}
+            is_math = nm.startswith("math.") or nm == "isclose"
+            rel_name, abs_name = ("rel_tol", "abs_tol") if is_math else ("rtol", "atol")
+            rel_default, abs_default = (1e-9, 0.0) if is_math else (1e-5, 1e-8)
+            try:
+                rel = fold(kw[rel_name]) if rel_name in kw else rel_default
+                ab = fold(kw[abs_name]) if abs_name in kw else abs_default
+            except ValueError:
+                return [TOP]
+            self.isclose.append((node, rel, ab))
+            a, b = ev.one(node.args[0], env), ev.one(node.args[1], env)
+            if a[0] == "coord" and b[0] == "coord" and a[1] != b[1]:
+                return [boolean(env.get("__letter__") == "Z")]
+            return [TOP]
         return None
 
     # -- interpreter hooks
@@ -93,7 +112,7 @@ class EqClient:
                     return ("enum", node.target.elts[0].id, side, node.target.elts[1].id)
         return None
 
-    def loop(self, node, env):
+    def loop(self, node, env, ref=None):
         if not isinstance(node, ast.For):
             return None
         c = self.classify_loop(node)
@@ -274,6 +293,13 @@ def check_eq(ctx, mod, cname, fn):
                   % (n, interp.states, interp.transitions), key="automaton")
         ctx.holds("R2", construct, where(mod, fn), "P and N letters both give False, so swapping the operands cannot change the verdict")
     # R4 tolerance literals
+    for node, rel, ab in client.isclose:
+        if rel != 0:
+            ctx.violated("R4", construct, where(mod, node),
+                         "%s uses a relative tolerance (%r): coordinates of large magnitude that differ by more than 1e-10 "
+                         "compare equal, while their hashes differ" % (text(node.func), rel), key="relative-tolerance")
+        elif not (0 <= ab <= 1e-10):
+            ctx.violated("R4", construct, where(mod, node), "absolute tolerance %r outside [0, 1e-10]" % ab, key="relative-tolerance")
     tol_bad, tols = [], []
     for cmp_ in [n_ for n_ in ast.walk(fn) if isinstance(n_, ast.Compare)]:
         for e in [cmp_.left] + list(cmp_.comparators):
